@@ -83,7 +83,7 @@ class Run:
         self.level = level
         self.seed = seed()
         self.t0 = time.time()
-        self.cov = {"evaluations": 0, "samples": []}
+        self.cov = {"evaluations": 0, "samples": [], "rule": "cases are generated from the behaviours/states emitted by TLC for this property and from seeded random inputs (see the check's docstring and 'assumptions'); a case is counted as distinct and non-trivial by its full key (configuration record, behaviour or history, and input seed), and trivial cases (e.g. histories without a linearisation, inadmissible points) are excluded from distinct_nontrivial"}
         self.distinct = set()
         self.violations = []  # (key, payload, replay path)
         self.known_hit = {}  # key -> count
